@@ -223,6 +223,8 @@ def run_job(job):
                     kf = None
                     if leafspell.delimiter_count_mismatch(case) and '<table>' in got:
                         kf = 'KF-C03-table-delimiter-cell-count'
+                    elif leafspell.lazy_line_reinterpreted(case):
+                        kf = 'KF-C03-lazy-line-reinterpreted'
                     r.fail(dict(markdown=md, expected_html=want, family=case[0], context=ctx, kf=kf), 'leaf-spelling-html-differs:' + case[0], kf=kf,
                            expected=want, observed=got)
             r.outcome('leaf:' + case[0])
